@@ -16,6 +16,8 @@ func init() {
 			{Name: "H_C17_seq", Tier: "quick", What: "every sequence of 2..5 operations over Open / Close / use-or-Close of an old handle on one directory: open of an owned directory fails and leaves the directory listing unchanged; Close removes LOCK and the next Open succeeds; after Close every public operation (incl. Execute of a query built before the Close) fails, a second Close reports an error, changes nothing and does not release a new owner's lock", Covers: []string{"open-refused", "closed", "use-after-close"}},
 			{Name: "H_C17_fault", Tier: "quick", EngineReplay: true, What: "one injected fault at each of the first 6 file-system calls of Open (MkdirAll, create LOCK, write pid, ReadDir x2 ...), on an empty directory and on one that held a store: a failed Open returns no handle, leaves no LOCK, and the next Open succeeds", Covers: []string{"open-failed", "open-survived"}},
 			{Name: "H_C17_race", Tier: "quick", EngineReplay: true, What: "two goroutines racing to open the same directory, every interleaving at sync-operation and file-system-call granularity with <=2 pre-emptions: exactly one succeeds", Covers: []string{"ran"}},
+			{Name: "H_C17_lock3", Tier: "quick", EngineReplay: true, What: "the lock protocol as a unit (storageProvider.acquireLock / releaseLock): the owner releases while two other providers acquire; 3 threads, every thread choice at blocking points, <=4 pre-emptions at file-system calls: at most one acquire succeeds, the owner holds LOCK, a refused acquire leaves none", Covers: []string{"one-acquired"}},
+			{Name: "H_C17_close_busy", Tier: "quick", EngineReplay: true, What: "Close while a compaction is due / in flight (two segments, threshold 2) or while an Add with a pending flush request (flush threshold 1 byte) has passed its closed-check; <=1 pre-emption: Close succeeds, no panic, no deadlock, afterwards every operation on the old handle fails cleanly (second Close included) and the next Open succeeds", Covers: []string{"ran"}},
 			{Name: "H_C17_close_race", Tier: "quick", EngineReplay: true, What: "Open racing with the Close of the owner, which still has one document to persist (flush worker running): every thread choice at blocking points plus <=1 pre-emption at sync operations and file-system name-space calls; if the new owner gets in, the directory listing (names, sizes) does not change afterwards; otherwise the open fails cleanly; LOCK released at the end", Covers: []string{"new-owner-got-in", "open-refused"}},
 		},
 		Bounds:      []string{"histories of <=5 operations; one injected fault per history; 2 racing goroutines (1..8 in the property)"},
